@@ -193,10 +193,14 @@ def generate(rng, seed, size):
     # and one (in every corpus size) whose literals are NOTHING BUT a placeholder (`{0}`, `{x}`, `{0}{1}`, `{0:}`): the
     # shape on which "just forward to the field" shortcuts are taken; the caller's sign / `#` flags must not reach the field
     n_bare = 1
-    for ei in range(target + n_shared + n_optional + n_bare):
+    # and one whose placeholder fields are of a type whose own Display formats ANOTHER value of the same enum (through
+    # `{}` or through to_string()): formatting must be re-entrant - no scratch state shared between an outer and a nested call
+    n_reent = 1
+    for ei in range(target + n_shared + n_optional + n_bare + n_reent):
         shared_enum = target <= ei < target + n_shared
         optional_enum = target + n_shared <= ei < target + n_shared + n_optional
-        bare_enum = ei >= target + n_shared + n_optional
+        bare_enum = target + n_shared + n_optional <= ei < target + n_shared + n_optional + n_bare
+        reent_enum = ei >= target + n_shared + n_optional + n_bare
         ename = "D%d" % ei
         block_start = len(out)
         out.append("// @case-begin %s%s\n" % (ename, " optional" if optional_enum else ""))
@@ -204,11 +208,11 @@ def generate(rng, seed, size):
         nvar = rng.randint(1, 7)
         if shared_enum:
             prefix, nvar = None, len(SHARED_IDENTS)
-        if optional_enum or bare_enum:
+        if optional_enum or bare_enum or reent_enum:
             prefix, nvar = None, 1
         # serialize_all: only together with identifiers whose word splitting is unambiguous (casing.py)
         style = rng.choice(casing.STYLES) if (rng.random() < 0.3 and not minimal) else None
-        if shared_enum or optional_enum or bare_enum:
+        if shared_enum or optional_enum or bare_enum or reent_enum:
             style = None
         # systematic part: the first enums cover every serialize_all style, each with a variant named by its
         # (non-ASCII) identifier alone
@@ -350,6 +354,21 @@ def generate(rng, seed, size):
                     ("unit", [], [], ['#[strum(to_string = "ts", serialize = "ts", serialize = "ts-longer")]'], "ts")]:
                 variants.append(dict(ident="B%d" % len(variants), kind=kind, disabled=False, attrs=attrs, fixed=canon, literal=None,
                                      tys=tys, fnames=fnames, ref=None))
+        if reent_enum:
+            variants = []
+            w = "Wrap%s" % ename
+            for (ident, kind, tys, fnames, lit) in [("Leaf", "tuple", ["u8"], [], "leaf {0}"), ("Node", "tuple", [w, w], [], "node {0} and {1}"),
+                                                    ("Deep", "named", [w, "i64"], ["w", "n"], "deep {w}/{n:>4}"),
+                                                    ("Twice", "tuple", [w], [], "{0}{0}")]:
+                variants.append(dict(ident=ident, kind=kind, disabled=False, attrs=["#[strum(to_string = %s)]" % rs(lit)], fixed=None, literal=lit,
+                                     tys=tys, fnames=fnames, ref=None, used=list(range(len(tys)))))
+            variants.append(dict(ident="Fixed", kind="unit", disabled=False, attrs=[], fixed="Fixed", literal=None, tys=[], fnames=[], ref=None))
+            out.append("#[derive(Debug)]\npub struct %s(pub u8);\n" % w)
+            out.append("impl Pick for %s { fn pick(i: u64) -> Self { %s(<u8 as Pick>::pick(i)) } }\n" % (w, w))
+            out.append("impl fmt::Display for %s {\n    fn fmt(&self, f: &mut fmt::Formatter<'_>) -> fmt::Result {\n"
+                       "        // a nested use of the enum's own Display while an outer one is in progress\n"
+                       "        if self.0 %% 2 == 0 { write!(f, \"[{}]\", %s::Leaf(self.0)) } else { f.write_str(&%s::Leaf(self.0).to_string())?; write!(f, \"{}\", %s::Fixed) }\n"
+                       "    }\n}\n" % (w, ename, ename, ename))
         # prefixes chosen with the variants in view: a brace in the prefix (only legal when no name is a format
         # literal), or a prefix that equals the beginning of one of the names it is prepended to
         has_interp = any(v["literal"] is not None for v in variants)
@@ -357,7 +376,7 @@ def generate(rng, seed, size):
             # systematic: enums 11..15 have fixed names only and a prefix with braces in it
             # (an unmatched closing brace, or `{x}`, in the prefix is rejected by the macro: outside the domain)
             prefix = ["{", "{{x", "x{", "{{", "é{"][ei - 11]
-        elif not robust and not shared_enum and not optional_enum and not bare_enum:
+        elif not robust and not shared_enum and not optional_enum and not bare_enum and not reent_enum:
             r = rng.random()
             if r < 0.08 and not has_interp:
                 prefix = rng.choice(["{", "{{x", "x{"])
@@ -372,7 +391,7 @@ def generate(rng, seed, size):
         decl = "<'a>" if uses_lt else ""
         inst = "<'static>" if uses_lt else ""
         # a type parameter (never displayed: Display is derived without bounds) in a fixed-name variant
-        if not uses_lt and not robust and not shared_enum and not optional_enum and not bare_enum and rng.random() < 0.12:
+        if not uses_lt and not robust and not shared_enum and not optional_enum and not bare_enum and not reent_enum and rng.random() < 0.12:
             decl, inst = "<T>", "<u8>"
             gv = dict(ident="Gen%d" % len(variants), kind=rng.choice(["tuple", "named"]), disabled=False, attrs=[], fixed=None,
                       literal=None, tys=["T"], fnames=["gen_field"], ref=None)
